@@ -133,7 +133,7 @@ pub fn scenario_digest(seed: u64) -> u64 {
 
 pub fn run(p: &Params) -> Report {
     let mut rep = Report::new("C03");
-    rep.rule = "cases = (state, set of transactions, proposer action): sets of 1-5 members under ALL permutations (every permutation on every rayon pool of 1/2/4/16 threads up to 4 members, on the 1-thread pool and a rotating second pool for 5), sets of up to 16 (thorough: 40) members under 10 (thorough: 24) random permutations; members independent, chained, DAG-shaped, with one invalid member, with a duplicate. All outcomes (accepted?, sealed header) must be equal, and equal to applying the members one at a time in dependency order; the block built from the outcome is applied to the parent 6 times with its HashSet rebuilt (fresh iteration order) and must give the same header every time; one block of 600 (thorough: 1400) transactions half of which spend the other half's outputs is applied 6 times; every set is also evaluated on a shadow chain (same coins, other headers) before and after the first chain has validated it, with equal results required; a seeded scenario is re-run in 2 fresh processes and must give the same digest. Non-trivial = set with >= 2 members; distinct by member hashes. The thorough tier repeats the workload under ThreadSanitizer".into();
+    rep.rule = "cases = (state, set of transactions, proposer action): sets of 1-5 members under ALL permutations (every permutation on every rayon pool of 1/2/4/16 threads up to 4 members, on the 1-thread pool and a rotating second pool for 5), sets of up to 16 (thorough: 40) members under 10 (thorough: 24) random permutations; members independent, chained, DAG-shaped, with one invalid member, with a duplicate; one set in five is a single invalid transaction with a rule-exempt part (a new-token output next to an unbalanced one), and sets of one or two members run four times per (order, pool). All outcomes (accepted?, sealed header) must be equal, and equal to applying the members one at a time in dependency order; the block built from the outcome is applied to the parent 6 times with its HashSet rebuilt (fresh iteration order) and must give the same header every time; one block of 600 (thorough: 1400) transactions half of which spend the other half's outputs is applied 6 times; every set is also evaluated on a shadow chain (same coins, other headers) before and after the first chain has validated it, with equal results required; a seeded scenario is re-run in 2 fresh processes and must give the same digest. Non-trivial = set with >= 2 members; distinct by member hashes. The thorough tier repeats the workload under ThreadSanitizer".into();
     let total = p.n(120, 4000);
     let mine = p.share(total);
     let mut rng = Rng::new(p.shard_seed() ^ 0xC03);
@@ -179,6 +179,16 @@ pub fn run(p: &Params) -> Report {
                     break;
                 }
                 continue;
+            }
+            if r.chance(1, 5) {
+                // a single transaction that breaks exactly one rule while another rule exempts part of it (a new-token
+                // output next to an unbalanced one): refused - on every thread, in every run, however its fields hash
+                if let Some(mut t) = w.gen_normal() {
+                    let l = w.mutate_kind(&mut t, 16);
+                    txs = vec![t];
+                    labels = vec![format!("normal+hostile:{}", l)];
+                    rep.count("single invalid transactions with a rule-exempt part, executed repeatedly");
+                }
             }
             if r.chance(1, 12) {
                 // duplicate member
@@ -243,12 +253,15 @@ pub fn run(p: &Params) -> Report {
                     if n > 4 && (pi + pn) % 4 != 0 && *pn != 1 {
                         continue;
                     }
-                    rep.eval();
-                    rep.count("(permutation, pool) executions");
-                    match batch_outcome(&s, &ordered, action, pool) {
-                        Ok(o) => outcomes.push((pi, *pn, o)),
-                        Err(_) => {
-                            panicked = true;
+                    // small sets are cheap: the same order on the same pool several times as well
+                    for _rep in 0..if n <= 2 { 4 } else { 1 } {
+                        rep.eval();
+                        rep.count("(permutation, pool) executions");
+                        match batch_outcome(&s, &ordered, action, pool) {
+                            Ok(o) => outcomes.push((pi, *pn, o)),
+                            Err(_) => {
+                                panicked = true;
+                            }
                         }
                     }
                 }
@@ -284,7 +297,14 @@ pub fn run(p: &Params) -> Report {
                     (outcomes[0].clone(), other.clone())
                 };
                 let same_perm_diff_pool = outcomes.iter().any(|x| outcomes.iter().any(|y| x.0 == y.0 && x.1 != y.1 && x.2.map(|h| h.hash().0) != y.2.map(|h| h.hash().0)));
-                let kind = if same_perm_diff_pool { "schedule-outcome-differs" } else { "perm-outcome-differs" };
+                let same_perm_same_pool = outcomes.iter().enumerate().any(|(i, x)| outcomes.iter().enumerate().any(|(j, y)| i != j && x.0 == y.0 && x.1 == y.1 && x.2.map(|h| h.hash().0) != y.2.map(|h| h.hash().0)));
+                let kind = if same_perm_same_pool {
+                    "repeat-outcome-differs"
+                } else if same_perm_diff_pool {
+                    "schedule-outcome-differs"
+                } else {
+                    "perm-outcome-differs"
+                };
                 rep.violate(
                     &format!("C03|{}|apply_tx_batch|{}", kind, cls),
                     format!("{} distinct outcomes over {} executions of one set", distinct.len(), outcomes.len()),
@@ -472,6 +492,7 @@ pub fn run(p: &Params) -> Report {
     if p.only_case.is_none() {
         rep.require("(permutation, pool) executions", p.n(5000, 150000));
         rep.require("sets accepted", p.n(100, 3000));
+        rep.require("single invalid transactions with a rule-exempt part, executed repeatedly", p.n(30, 1000));
         rep.require("apply_block replays with rebuilt HashSet", p.n(500, 15000));
         rep.require("sets with a spender of output >= 1 of a member stake transaction", p.n(3, 100));
     }
